@@ -6,6 +6,7 @@ import Drv.C12
 import Drv.C18
 import Drv.C20
 import Drv.C13
+import Drv.C10
 /-! `drv <model>`: executable models behind a one-line-in, one-line-out protocol. -/
 def main (args : List String) : IO UInt32 := do
   match args with
@@ -17,4 +18,6 @@ def main (args : List String) : IO UInt32 := do
   | ["c18"] => Drv.loop Drv.C18.step {}; return 0
   | ["c20"] => Drv.loop Drv.C20.step Drv.C20.St.none; return 0
   | ["c13"] => Drv.pureLoop Drv.C13.step; return 0
+  | ["c10"] => Drv.loop Drv.C10.step {}; return 0
+  | ["c11"] => Drv.loop Drv.C10.step {}; return 0
   | _ => IO.eprintln "usage: drv <model>"; return 2
